@@ -60,7 +60,7 @@ class C04(Prop):
             k = rng.random()
             if nodes and k < 0.35:
                 p, pv = rng.choice(nodes)
-                sfx = rng.choice(["/zz", "[7]", "/..", "[*]", "/a", "[new()]", "/a/b", "[-9]", "[x]", "[", "]", "/*", "", "", ""])
+                sfx = rng.choice(["/zz", "[7]", "/..", "[*]", "/a", "[new()]", "/a/b", "[-9]", "[x]", "[", "]", "/*", "[]", "/[]", "/[]/a", "", "", "", ""])
                 xp = X.render(t, p, rng) + sfx
                 tag = "derived" if sfx else "resolves"
                 lists_here = [(q, x) for q, x in nodes if isinstance(x, list)]
@@ -136,11 +136,21 @@ class C04(Prop):
                 gi = rng.randrange(len(grid)); gj = rng.randrange(len(grid[gi]))
                 sp = rng.choice(["g[%d][%d]", "g[%d]/[%d]", "/g/[%d][%d]"]) % (gi, gj)
                 xp, tag, pred = sp + rng.choice(["/id/../v", "/id/../id", "/v/.."]), "resolves", None
+            if root == "dict" and rng.random() < 0.025:
+                # a '~' condition on a list-valued field asks for an ELEMENT equal to the literal: a literal spelled with the
+                # letters of several elements is no element, so the path does not resolve (and '!~' does)
+                a, b, c = rng.sample(["x", "y", "z", "q", "k", "m"], 3)
+                recs = [{"tags": [a, b], "id": 1}, {"tags": [c], "id": 2}]
+                t = {"r": recs, "a": t}
+                sp = rng.choice(["r[tags%s%s]/id", "r/[tags%s%s]/id", "/r[*]/[tags%s%s]/id", "r/tags[text()%s%s]/../id"])
+                op, lit, tag = rng.choice([("~", a + b, "misses"), ("~", b + a, "misses"), ("~", a + a, "misses"), ("!~", a + b, "resolves"),
+                                           ("~", a, "resolves"), ("~", c, "resolves"), ("!~", c, "resolves")])
+                xp, pred = sp % (op, lit), None
             if rng.random() < 0.1:
                 xp = "?" + xp
             if rng.random() < 0.01:
                 xp, tag, pred = rng.choice(["", "?", " ", "/", "[", "//"]), "degenerate", None
-            tup = tag in ("resolves", "derived", "oob", "pred") and rng.random() < 0.06
+            tup = tag in ("resolves", "derived", "oob", "pred", "misses") and rng.random() < 0.06
             for kind in (0, 1, 2):
                 inp = {"tree": t, "mode": "wrap" if tup else mode, "xpath": xp, "kind": kind}
                 if tup:
@@ -201,8 +211,8 @@ class C04(Prop):
             return "lookup %r modified the tree" % i["xpath"]
         q = i["xpath"].startswith("?")
         if i["kind"] == 0:
-            if "raise" not in obs and case.get("tag", "").startswith("oob") and not q:
-                return "%r is out of range but item access returned %r" % (i["xpath"], X.plain(res))
+            if "raise" not in obs and case.get("tag", "").startswith(("oob", "misses")) and not q:
+                return "%r does not resolve (out of range / no such element) but item access returned %r" % (i["xpath"], X.plain(res))
             if "raise" in obs:
                 if case.get("tag", "").startswith("resolves") and not q:
                     return "%r spells an existing node but item access raised %s" % (i["xpath"], obs.get("exc"))
@@ -213,8 +223,8 @@ class C04(Prop):
             return None
         if "raise" in obs:
             return "%s raised %s" % ("get" if i["kind"] == 1 else "first", obs.get("exc"))
-        if case.get("tag", "").startswith("oob") and not q and not (isinstance(res, str) and res == X.DFLT):
-            return "%r is out of range but get/first returned %r instead of the default" % (i["xpath"], X.plain(res))
+        if case.get("tag", "").startswith(("oob", "misses")) and not q and not (isinstance(res, str) and res == X.DFLT):
+            return "%r does not resolve (out of range / no such element) but get/first returned %r instead of the default" % (i["xpath"], X.plain(res))
         if case.get("tag", "").startswith("resolves") and not q and isinstance(res, str) and res == X.DFLT:
             return "%r spells an existing node but get/first returned the default" % i["xpath"]
         if i.get("pred") and not q:
